@@ -387,7 +387,25 @@ func driveC16(seed int64, tier, out, replay string) {
 			sort.Strings(names)
 			g := &introGen{rng: r, names: names, opt: c16Opts{Fragments: true, Typename: true, Newer: true, DupKeys: false}}
 			for j := 0; j < 10; j++ {
-				c.Ops = append(c.Ops, g.operation())
+				op := g.operation()
+				c.Ops = append(c.Ops, op)
+				// the same document again with other values for its variables (the answer must follow the variables)
+				if len(op.Variables) > 0 && j%2 == 0 {
+					again := op
+					again.Kind = "same_document_other_variables"
+					again.Variables = map[string]interface{}{}
+					for k, v := range op.Variables {
+						switch x := v.(type) {
+						case bool:
+							again.Variables[k] = !x
+						case string:
+							again.Variables[k] = names[r.Intn(len(names))]
+						default:
+							again.Variables[k] = v
+						}
+					}
+					c.Ops = append(c.Ops, again)
+				}
 			}
 			c.Ops = append(c.Ops, c16Op{Query: graphqlJSIntrospectionQuery, Kind: "graphql-js standard query", OpName: "IntrospectionQuery"})
 			// __type(name:) next to __schema.types with the same selection, for three type names
